@@ -6,5 +6,6 @@ CONSTANTS
   CacheTransparent = TRUE
   SerialsMemoised = TRUE
   ScopeFixed = TRUE
+  TouchInvisible = TRUE
 INVARIANTS Emit
 CHECK_DEADLOCK FALSE
